@@ -42,6 +42,23 @@ template<class T, glm::qualifier Q> static void run_float(Rng& g, int n) {
 		T3(clamp, L, same) T3C(mix, L) T3(smoothstep, L, close2) T3C(fma, L) T3(fmin, L, samez) T3(fmax, L, samez) T3(fclamp, L, samez)
 		FOR_L(M)
 #undef M
+		// functions with an output parameter and the bit casts: the vector overload against the scalar one on every component, bit for bit (signed zeros, infinities and NaN included)
+#define OUTP(L) { glm::vec<L, T, Q> a, ip; for (int i = 0; i < L; ++i) a[i] = special<T>(g); auto fr = glm::modf(a, ip); count(std::string("modf_") + tn<T>()); \
+		for (int i = 0; i < L; ++i) { T si; T sf = glm::modf(a[i], si); if (!same(fr[i], sf) || !same(ip[i], si)) { fail(std::string("modf_") + tn<T>(), "component", "L=" #L " a=" + vs(a) + " i=" + str(i), "scalar modf: frac " + str((double)sf) + " int " + str((double)si), "frac " + str((double)fr[i]) + " int " + str((double)ip[i])); break; } } \
+		glm::vec<L, int, Q> ex; auto mn = glm::frexp(a, ex); count(std::string("frexp_") + tn<T>()); \
+		for (int i = 0; i < L; ++i) { int se; T sm = glm::frexp(a[i], se); bool fin = a[i] == a[i] && a[i] - a[i] == 0; if (!same(mn[i], sm) || (fin && ex[i] != se)) { fail(std::string("frexp_") + tn<T>(), "component", "L=" #L " a=" + vs(a) + " i=" + str(i), "scalar frexp", "differs"); break; } } \
+		glm::vec<L, int, Q> e2; for (int i = 0; i < L; ++i) e2[i] = (int)g.range(0, 60) - 30; auto ld = glm::ldexp(a, e2); count(std::string("ldexp_") + tn<T>()); \
+		for (int i = 0; i < L; ++i) if (!same(ld[i], glm::ldexp(a[i], e2[i]))) { fail(std::string("ldexp_") + tn<T>(), "component", "L=" #L " a=" + vs(a) + " i=" + str(i), "scalar ldexp", "differs"); break; } }
+		FOR_L(OUTP)
+#undef OUTP
+#define BITC(L) if constexpr (std::is_same<T, float>::value) { glm::vec<L, float, Q> a; glm::vec<L, int, Q> iv; glm::vec<L, glm::uint, Q> uv; for (int i = 0; i < L; ++i) { a[i] = special<float>(g); iv[i] = (int)g.next(); uv[i] = (glm::uint)g.next(); } count("bitcasts_f32"); \
+		auto fi = glm::floatBitsToInt(a); auto fu = glm::floatBitsToUint(a); auto bf = glm::intBitsToFloat(iv); auto uf = glm::uintBitsToFloat(uv); \
+		for (int i = 0; i < L; ++i) { int ri; std::memcpy(&ri, &a[i], 4); float rf, ru; std::memcpy(&rf, &iv[i], 4); std::memcpy(&ru, &uv[i], 4); \
+			if (fi[i] != ri || fu[i] != (glm::uint)ri || std::memcmp(&bf[i], &rf, 4) || std::memcmp(&uf[i], &ru, 4) || fi[i] != glm::floatBitsToInt(a[i]) || fu[i] != glm::floatBitsToUint(a[i])) { fail("bitcasts_f32", "component", "L=" #L " a=" + vs(a) + " i=" + str(i), "the bit pattern", "differs"); break; } } \
+		glm::vec<L, bool, Q> bv; bool aall = true, aany = false; for (int i = 0; i < L; ++i) { bv[i] = (g.next() & 3) != 0; aall = aall && bv[i]; aany = aany || bv[i]; } auto nb = glm::not_(bv); bool okb = glm::all(bv) == aall && glm::any(bv) == aany; for (int i = 0; i < L; ++i) okb = okb && nb[i] == !bv[i]; \
+		count("all_any_not"); if (!okb) fail("all_any_not", "component", "L=" #L, "conjunction / disjunction / negation per component", "differs"); }
+		FOR_L(BITC)
+#undef BITC
 		// operators, with scalar and vec1 operands, and relational functions
 #define OPS(L) { glm::vec<L, T, Q> a, b; for (int i = 0; i < L; ++i) { a[i] = special<T>(g); b[i] = special<T>(g); } glm::vec<1, T, Q> b1(b[0]); T s = b[0]; std::string nm = std::string("operators_") + tn<T>(); count(nm); \
 		auto add = a + b, sub = a - b, mul = a * b, dv = a / b, neg = -a, as = a + s, sa = s + a, ss = a - s, s2 = s - a, ms = a * s, sm = s * a, ds = a / s, sd = s / a, a1 = a + b1, m1 = a * b1, d1 = a / b1, b1a = b1 / a, s1 = a - b1, b1s = b1 - a; \
